@@ -7,6 +7,8 @@
  * @brief Trust region algorithms for determining step size.
  */
 
+#include <algorithm>
+#include <limits>
 #include <optional>
 #include <utility>
 
@@ -68,6 +70,25 @@ auto solve_linear_ldlt(
   for (auto i = 0u; i < H.rows(); ++i) { H.coeffRef(i, i) += lambda * d(i) * d(i); }
 
   const LDLTt ldlt(H);
+
+  if constexpr (is_sparse) {
+    bool ok = ldlt.info() == Eigen::Success;
+    if (ok) {
+      // a pivot at rounding level relative to the diagonal entry it was computed from carries no information
+      const auto D      = ldlt.vectorD();
+      const auto & Pinv = ldlt.permutationPinv().indices();
+      for (auto k = 0u; ok && k < D.size(); ++k) {
+        const auto j = Pinv.size() > 0 ? Pinv(k) : static_cast<int>(k);
+        ok           = D(k) > Scalar(8) * std::numeric_limits<Scalar>::epsilon() * H.coeff(j, j);
+      }
+    }
+    if (!ok) {
+      // the sparse factorization (no pivoting) broke down on a numerically singular H (solve() would
+      // leave the result unset), or its pivots are at rounding level: fall back to the pivoted dense factorization
+      return solve_linear_ldlt(Eigen::Matrix<Scalar, Eigen::Dynamic, Eigen::Dynamic>(J), d, r, lambda, dphi);
+    }
+  }
+
   const Eigen::Vector<Scalar, N> x = ldlt.solve(-J.transpose() * r);
 
   if (dphi.has_value()) {
